@@ -1211,7 +1211,7 @@ theorem C15_einsum_implicit_matmul {a b : Tensor ℝ} {m n p : ℕ} (ha : IsCplx
   subst hzz
   have hsh : (EinEq.out ⟨[105, 106], [106, 107], [105, 107]⟩).map
       (einSize ⟨[105, 106], [106, 107], [105, 107]⟩ [m, n] [n, p]) = [m, p] := by
-    simp [einSize, labelSize, labelDim, List.lookup, bdim]
+    simp [einSize, labelSize, labelDim, List.lookup]
   have hs0 : sumLabels ⟨[105, 106], [106, 107], [105, 107]⟩ = [106] := by decide
   have hsz : einSize ⟨[105, 106], [106, 107], [105, 107]⟩ [m, n] [n, p] 106 = n := by
     simp [einSize, labelSize, labelDim, List.lookup_cons, bdim]
@@ -1246,7 +1246,7 @@ theorem C15_einsum_ellipsis_batched {a b : Tensor ℝ} {B n p : ℕ} (ha : IsCpl
   subst hzz
   have hsh : (EinEq.out ⟨[108, 106], [106, 107], [108, 107]⟩).map
       (einSize ⟨[108, 106], [106, 107], [108, 107]⟩ [B, n] [n, p]) = [B, p] := by
-    simp [einSize, labelSize, labelDim, List.lookup, bdim]
+    simp [einSize, labelSize, labelDim, List.lookup]
   have hs0 : sumLabels ⟨[108, 106], [106, 107], [108, 107]⟩ = [106] := by decide
   have hsz : einSize ⟨[108, 106], [106, 107], [108, 107]⟩ [B, n] [n, p] 106 = n := by
     simp [einSize, labelSize, labelDim, List.lookup_cons, bdim]
@@ -1305,6 +1305,26 @@ example : dec (1, 2) ≠ 0 := by intro h; have := congrArg Complex.re h; simp at
 example : 1 + Complex.exp (dec (0, 0)) ≠ 0 := by
   have : dec (0, 0) = 0 := rfl
   rw [this, Complex.exp_zero]; norm_num
+
+/-- `"b...a,a"` on shapes `(2,5,3)`, `(3)`: the ellipsis covers the middle axis and gets the fresh label 99; implicit output =
+ellipsis axes first, then the once-only labels sorted: `...b` (torch returns shape `(5, 2)`) -/
+example : elabEq ⟨[.lab 98, .ell, .lab 97], [.lab 97], none⟩ [2, 5, 3] [3] = .ok ⟨[98, 99, 97], [97], [99, 98]⟩ := by rfl
+/-- ellipses of different lengths are aligned from the right: `"...a,...b"` on `(2,3)`, `(2,1,4)` -/
+example : elabEq ⟨[.ell, .lab 97], [.ell, .lab 98], none⟩ [2, 3] [2, 1, 4] = .ok ⟨[100, 97], [99, 100, 98], [99, 100, 97, 98]⟩ := by
+  rfl
+/-- an ellipsis left out of an explicit output is contracted (`"...j,jk->k"`), two ellipses in one operand are rejected -/
+example : (elabEq ⟨[.ell, .lab 106], [.lab 106, .lab 107], some [.lab 107]⟩ [5, 2, 3] [3, 4]).map sumLabels = .ok [108, 109, 106] := by
+  rfl
+example : elabEq ⟨[.ell, .lab 105, .ell], [.lab 105], some [.lab 105]⟩ [2, 2] [2] = .error .RuntimeError := by rfl
+/-- upper-case labels sort before lower-case ones in an implicit output (`"a,B"` → `Ba`) -/
+example : onceLabels [97, 66] = [66, 97] := by rfl
+/-- `"ba,ac"` (implicit) on Gaussian integers: the output is `bc` (sorted once-only labels), contraction over `a`;
+`x = [[1+i, 2]]` (`b=1, a=2`), `y = [[3], [i]]` (`a=2, c=1`): `z = (1+i)·3 + 2·i = 3 + 5i` -/
+example : einsumS ⟨[.lab 98, .lab 97], [.lab 97, .lab 99], none⟩ (⟨[2, 1, 2], [1, 2, 1, 0]⟩ : Tensor ℤ) ⟨[2, 2, 1], [3, 0, 0, 1]⟩
+    true true = .ok (.cplx ⟨[2, 1, 1], [3, 5]⟩) := by rfl
+/-- `hypot` on the exact carrier side: the scaled formula divides by the larger component first -/
+example : cscale (⟨[2, 2], [3, -1, -4, 0]⟩ : Tensor ℝ) = .ok ⟨[2], [max |3| |(-4)|, max |(-1)| |0|]⟩ := by
+  simp [cscale, real, imag, numel, Tensor.zip]
 
 end examples
 end C15
